@@ -804,7 +804,6 @@ func (e *Env) Apply(s Step) bool {
 		e.cancels[s.Caller] = cancel
 		e.mu.Unlock()
 		e.Log(Event{"ev": "lookup", "caller": s.Caller, "name": s.Name, "deadline": s.Deadline})
-		began := time.Now()
 		go func() {
 			var h setec.Secret
 			var err error
@@ -825,8 +824,10 @@ func (e *Env) Apply(s Step) bool {
 				e.mu.Unlock()
 			case errors.Is(err, context.Canceled), errors.Is(err, context.DeadlineExceeded):
 				res = "ctx"
-				if ctx.Err() == nil && !(s.Deadline == 0 && time.Since(began) >= 5*time.Minute) {
-					res = "ctx-foreign" // failed by somebody else's context, not by its own or the five-minute limit
+				if ctx.Err() == nil && s.Deadline != 0 {
+					// failed by somebody else's context: its own is alive (a caller without a deadline has the store's
+					// safety limit as its context, which the driver cannot see: the specification bounds that one)
+					res = "ctx-foreign"
 				}
 			default:
 				res = "err"
